@@ -89,7 +89,7 @@ Snap(I) == [cur |-> I.cur, tgt |-> I.tgt, lastTau |-> I.lastTau, warm |-> I.warm
 NewInst(n) ==
   [alive |-> TRUE, kind |-> n.kind, T |-> n.T, ch |-> n.ch,
    L |-> IF IsFast(n.kind) THEN 8 ELSE n.L, F |-> n.F, interp |-> n.interp,
-   degree |-> n.degree, probe |-> n.probe, signal |-> n.signal,
+   degree |-> n.degree, probe |-> n.probe, signal |-> n.signal, imp |-> n.imp,
    chunkMax |-> n.chunk, chunk |-> n.chunk, fs_in |-> n.fs_in, fs_out |-> n.fs_out,
    sub |-> n.sub, orig |-> n.orig, maxrel |-> n.maxrel,
    cur |-> n.orig.t, tgt |-> n.orig.t, prevEndT |-> n.orig.t, const |-> TRUE,
@@ -141,6 +141,9 @@ AfterReset(I, ev) ==
           !.best = <<0, 0>>]
 
 AfterOther(I, ev) == [I EXCEPT !.pre = Snap(I), !.g = ev.post]
+\* a "bad" call whose shape turns out to be acceptable (e.g. output short by 1 when 0 frames are
+\* due) is an ordinary processing call
+AfterBad(I, ev) == IF ev.res = "ok" THEN AfterProcess(I, ev) ELSE AfterOther(I, ev)
 
 (***************************************************************************)
 (* C03  no panic / abort / spurious Err on a valid call                    *)
@@ -250,11 +253,11 @@ C07_NoDrift(I, ev) ==
 FftA(I) == I.fs_in \div GCD(I.fs_in, I.fs_out)
 FftB(I) == I.fs_out \div GCD(I.fs_in, I.fs_out)
 \* input frames per FFT block: the smallest multiple of the reduced input rate that is >= the
-\* requested (sub)chunk; FftFixedOut: same on the output side
+\* requested (sub)chunk, at least one; FftFixedOut: same on the output side
 FftBlockIn(I) ==
-  CASE I.kind = "FftFixedInOut" -> CeilDiv(I.chunkMax, FftA(I)) * FftA(I)
-    [] I.kind = "FftFixedIn"    -> CeilDiv(I.chunkMax \div I.sub, FftA(I)) * FftA(I)
-    [] OTHER                    -> CeilDiv(I.chunkMax \div I.sub, FftB(I)) * FftA(I)
+  CASE I.kind = "FftFixedInOut" -> Max(1, CeilDiv(I.chunkMax, FftA(I))) * FftA(I)
+    [] I.kind = "FftFixedIn"    -> Max(1, CeilDiv(I.chunkMax \div I.sub, FftA(I))) * FftA(I)
+    [] OTHER                    -> Max(1, CeilDiv(I.chunkMax \div I.sub, FftB(I))) * FftA(I)
 
 C07_FftExact(I, ev) ==
   (IsFft(I.kind) /\ IsProc(ev)) =>
@@ -326,7 +329,7 @@ C13_ErrVariant(I, ev) ==
     /\ <<ev.variant, ev.ef>> \in Faults(I, ev)
 
 C13_Untouched(I, ev) ==
-  ev.ev = "bad" => (~ev.dirty_beyond /\ ev.post = ev.pre)
+  (ev.ev = "bad" /\ Faults(I, ev) # {}) => (~ev.dirty_beyond /\ ev.post = ev.pre)
 
 \* constructors: documented error for invalid arguments, success otherwise
 C13_Ctor(n) ==
@@ -359,6 +362,18 @@ C14_Delay(I, ev) ==
     \A k \in 1..Len(ev.taus) :
       (ev.taus[k][1] >= WarmAt(I) + 1) =>
         DelayOk(I.pre.totOut + k - 1, ev.taus[k], ev.pre.delay, I.orig.p, I.orig.q)
+
+\* Kernels without an instant probe (real sinc kernels, FFT): one impulse at input frame n0; the
+\* largest |output| so far must sit at n0*ratio + delay once the stream has passed that point.
+C14_Peak(I, ev) ==
+  (ProcOk(ev) /\ I.signal = "impulse" /\ Len(I.imp) = 1 /\ I.const
+     /\ (IsFft(I.kind) \/ I.orig.p > 0)) =>
+    LET p == IF IsFft(I.kind) THEN FftB(I) ELSE I.orig.p
+        q == IF IsFft(I.kind) THEN FftA(I) ELSE I.orig.q
+        expect == I.imp[1] * p + ev.pre.delay * q       \* times q
+        tol == Max(p, q) + q
+    IN (I.totOut * q > expect + tol + q /\ I.best[2] > 0) =>
+         Abs(I.best[1] * q - expect) <= tol
 
 (***************************************************************************)
 (* Known findings (genuine defects of the unchanged tree that are recorded *)
